@@ -282,7 +282,8 @@ func c10Witnesses(c *Cfg) {
 		want, _ := c10NormNum(w)
 		c.Direct(d.ok && got == want, "number-exponent-out-of-apd-range",
 			fmt.Sprintf("valid JSON number %s decodes and marshals as %q (%s %s)", w, d.out, d.stage, d.err), w)
-		c.OpTag("O", "", "num "+H(w), c10NumAnswer(ctx, []byte(w)))
+		wv, _ := c10NumAnswer(ctx, []byte(w))
+		c.OpTag("O", "", "num "+H(w), wv)
 	}
 	// duplicate member names with different values
 	doc = []byte(`{"a":1,"a":2}`)
@@ -416,21 +417,29 @@ var c10FixedStringTokens = []string{
 
 // ---- number tokens ----------------------------------------------------------------------
 
-func c10NumAnswer(ctx *cue.Context, tok []byte) string {
+// c10NumAnswer: kind and exact value (O level) and the marshalled bytes (I level) of a number token
+func c10NumAnswer(ctx *cue.Context, tok []byte) (val, bytesAns string) {
 	d := c10Decode(ctx, tok, true)
 	if d.stage == "panic" {
-		return "panic"
+		return "panic", "panic"
 	}
 	if !d.ok {
-		return "reject"
+		return "reject", "reject"
 	}
+	k := ""
 	switch d.val.Kind() {
 	case cue.IntKind:
-		return "int " + H(string(d.out))
+		k = "int "
 	case cue.FloatKind:
-		return "float " + H(string(d.out))
+		k = "float "
+	default:
+		return "reject", "reject" // the text is a document of another kind, not a number token
 	}
-	return "reject" // the text is a document of another kind, not a number token
+	n, ok := c10NormNum(string(d.out))
+	if !ok {
+		n = "bad:" + H(string(d.out))
+	}
+	return k + n, k + H(string(d.out))
 }
 
 func c10NumberTokens(c *Cfg, r *Rng) {
@@ -454,10 +463,12 @@ func c10NumberTokens(c *Cfg, r *Rng) {
 		} else {
 			c.Count("number-token/invalid")
 		}
-		c.OpTag("O", "", "num "+H(tok), c10NumAnswer(ctx, []byte(tok)))
+		val, byt := c10NumAnswer(ctx, []byte(tok))
+		c.OpTag("O", "", "num "+H(tok), val)
 		if c.Focus {
 			return
 		}
+		c.Op("I", "numfmt "+H(tok), byt)
 		neg, coeff, exp, fl, _, _, ok := c10NumSpec(tok)
 		if !ok {
 			c.Op("I", "nspec "+H(tok), "invalid")
